@@ -694,6 +694,44 @@ func r03_7(c *Ctx) {
 		}
 		return len(returnsOf(g)) > 0
 	}
+	// every pair is compared: the cursor of each loop starts afresh whenever the loop is entered. A cursor that is
+	// carried over from the enclosing loop (declared once in front of both) makes the inner loop run only once.
+	{
+		carried := ""
+		eachInstr(fn, func(in ssa.Instruction) {
+			ia, ok := in.(*ssa.IndexAddr)
+			if !ok || (ia.X != ssa.Value(fn.Params[0]) && ia.X != ssa.Value(fn.Params[1])) {
+				return
+			}
+			idx := ia.Index
+			for k := 0; k < 4; k++ {
+				if b, ok := idx.(*ssa.BinOp); ok && (b.Op == token.ADD || b.Op == token.SUB) {
+					if _, isK := b.Y.(*ssa.Const); isK {
+						idx = b.X
+						continue
+					}
+				}
+				if cv, ok := idx.(*ssa.Convert); ok {
+					idx = cv.X
+					continue
+				}
+				break
+			}
+			ph, ok := idx.(*ssa.Phi)
+			if !ok {
+				return
+			}
+			for _, e := range ph.Edges {
+				if q, isPhi := e.(*ssa.Phi); isPhi && q != ph && len(loopsContaining(fn, q.Block())) > 0 && len(loopsContaining(fn, ph.Block())) > len(loopsContaining(fn, q.Block())) {
+					carried = P.ipos(ia)
+				}
+			}
+		})
+		if len(loopsOf(fn)) > 0 {
+			c.check(carried == "", fnLabel(fn)+":all-pairs", P.pos(fn.Pos()), "the cursor of the inner loop starts afresh for every element of the outer loop",
+				"the cursor of the inner loop (index used at "+carried+") is carried over from the enclosing loop instead of starting afresh: after the first outer element the inner loop is already exhausted, so only the first element of one argument is compared with the other argument (a message published to [news, sports] no longer reaches a subscriber of sports)")
+		}
+	}
 	for i, ret := range returnsOf(fn) {
 		name := fnLabel(fn) + ":return#" + itoa(i)
 		if libForm(ret.Results[0]) {
@@ -2403,4 +2441,146 @@ func isJoeChanLoad(v ssa.Value) bool {
 	}
 	_, isChan := v.Type().Underlying().(*types.Chan)
 	return isChan
+}
+
+// R03.10: Joe's loop handles every request with that request's own values. A variable declared in front of
+// the loop and written inside it (SSA: a phi at the loop head) carries a value from an earlier request into a
+// later one; such a value must not reach what a request hands to subscribers, the replayer or its caller.
+// The replayer variable itself (disabled after a panic) is the one piece of state the loop carries by design.
+func init() {
+	register(&Rule{ID: "R03.10", Title: "no value of an earlier request reaches a later request's sends, replayer calls, replies or decisions", Floor: 1, Run: r03_10})
+}
+
+func r03_10(c *Ctx) {
+	P := c.P
+	lp := findLoop(P)
+	if lp.fn == nil || lp.jp.sel == nil {
+		c.anchor("Joe's loop")
+		return
+	}
+	fn := lp.fn
+	selB := lp.jp.sel.Block()
+	inLoop := reach([]*ssa.BasicBlock{selB}, nil, nil)
+	isReplayerT := func(t types.Type) bool {
+		if p, ok := t.Underlying().(*types.Pointer); ok {
+			t = p.Elem()
+		}
+		n := namedOf(t)
+		return n != nil && n.Obj().Name() == "Replayer"
+	}
+	tainted := map[ssa.Value]bool{}
+	var work []ssa.Value
+	var origin = map[ssa.Value]*ssa.Phi{}
+	add := func(v ssa.Value, from *ssa.Phi) {
+		if v == nil || tainted[v] {
+			return
+		}
+		tainted[v] = true
+		origin[v] = from
+		work = append(work, v)
+	}
+	nCarried := 0
+	for _, b := range fn.Blocks {
+		if !b.Dominates(selB) || !inLoop[b] {
+			continue
+		}
+		for _, in := range b.Instrs {
+			ph, ok := in.(*ssa.Phi)
+			if !ok {
+				break
+			}
+			if isReplayerT(ph.Type()) {
+				continue
+			}
+			if b, ok := ph.Type().Underlying().(*types.Basic); ok && b.Info()&types.IsNumeric != 0 {
+				continue // a counter or a duration: not a value a request hands to anybody
+			}
+			nCarried++
+			add(ph, ph)
+		}
+	}
+	name := fnLabel(fn) + ":no-value-carried-between-requests"
+	if nCarried == 0 {
+		c.ok(name, P.ipos(lp.jp.sel), "no variable (other than the replayer) lives across iterations of the loop")
+		return
+	}
+	var hit ssa.Instruction
+	var hitPhi *ssa.Phi
+	for len(work) > 0 {
+		v := work[len(work)-1]
+		work = work[:len(work)-1]
+		refs := v.Referrers()
+		if refs == nil {
+			continue
+		}
+		for _, r := range *refs {
+			if r.Block() == nil || !inLoop[r.Block()] {
+				continue
+			}
+			switch x := r.(type) {
+			case *ssa.Store:
+				if x.Val == v {
+					// the stored-into variable now holds the carried value
+					if a, ok := rootAddr(x.Addr).(*ssa.Alloc); ok {
+						add(a, origin[v])
+					} else {
+						add(cellRoot(x.Addr), origin[v])
+					}
+				}
+			case *ssa.Send:
+				if x.X == v && hit == nil {
+					hit, hitPhi = x, origin[v]
+				}
+			case *ssa.MapUpdate:
+				if (x.Key == v || x.Value == v) && hit == nil {
+					hit, hitPhi = x, origin[v]
+				}
+			case *ssa.If:
+				if hit == nil {
+					hit, hitPhi = x, origin[v]
+				}
+			case *ssa.Return:
+				if hit == nil {
+					hit, hitPhi = x, origin[v]
+				}
+			case *ssa.Call:
+				if b, isB := x.Call.Value.(*ssa.Builtin); isB {
+					switch b.Name() {
+					case "append", "copy", "min", "max":
+						add(x, origin[v])
+					case "len", "cap":
+						add(x, origin[v])
+					}
+					continue
+				}
+				// a call outside the module (logging, formatting, time) is not something a request hands out:
+				// its result carries the value on
+				if callee := x.Call.StaticCallee(); callee != nil && !inSSEPackage(callee) && !x.Call.IsInvoke() {
+					add(x, origin[v])
+					continue
+				}
+				if hit == nil {
+					hit, hitPhi = x, origin[v]
+				}
+			case *ssa.Defer, *ssa.Go:
+				if hit == nil {
+					hit, hitPhi = x, origin[v]
+				}
+			case *ssa.DebugRef:
+			default:
+				if val, ok := r.(ssa.Value); ok {
+					add(val, origin[v])
+				}
+			}
+		}
+	}
+	if hit == nil {
+		c.ok(name, P.ipos(lp.jp.sel), "variables that live across iterations do not reach a send, a call, the subscribers map or a branch")
+		return
+	}
+	what := "variable"
+	if hitPhi != nil && hitPhi.Comment != "" {
+		what = "variable " + hitPhi.Comment
+	}
+	c.bad(name, P.ipos(hit), "the "+what+" lives across iterations of Joe's loop (declared in front of it, written inside) and its value from an earlier request is used here for a later one: a later subscriber inherits an earlier one's error, or a slice handed to the replayer / the subscribers is rewritten by the next request")
 }
